@@ -38,7 +38,13 @@ E2D_NOTE = ("Trusted base: the encoders/decoders compared are the repository's o
 E2F_NOTE = ("Trusted base: the harness's own S-expression reader, ScopeCheck and expected rendering in mc/src/e2f.rs (no code shared with air-parser or the beautifier); "
             "bounds: the script families of DESIGN.md 5 with their single scope mutations, and all token strings up to the stated length over a 26-token alphabet.")
 E18_TECH = E1_TECH + "; caught and uncaught variants of one failure compared across their explored graphs"
+ADV_NOTE = ("Trusted base: the attacker toolkit (mc/src/forge.rs: JSON-tree edits of decoded data, content ids recomputed through the repository's own public functions, the attacker's result set re-signed with sign_cids), the situation harvest from explorations of the real interpreter, the isolated worker process (mc worker; address-space limit 4 GiB; a forked child per evaluation whose inner data still passes rkyv validation); "
+            "bounds: the ADV scripts, the situations per script and the operator catalogue listed in the evidence; attacks needing three coordinated edits are outside the pair bound.")
+ADV_TECH = "exhaustive fault enumeration: every operator of a mutation catalogue at every applicable position of every harvested honest situation (singles, and ordered pairs over a thinned catalogue), each mutant executed by the real interpreter in an isolated process"
 EXTRA = {
+ "C01": (ADV_NOTE, ADV_TECH + "; plus every truncation / single-byte substitution of honest envelopes and a set of name-clash and deeply nested scripts"),
+ "C14": (ADV_NOTE, ADV_TECH),
+ "C23": (E2F_NOTE, "bounded-exhaustive enumeration of token strings and of generated scripts with every single scope mutation, parser verdict compared with an independent scope checker"),
  "C21": (E2B_NOTE, E2_TECH), "C22": (E2B_NOTE, E2_TECH), "C24": (E2C_NOTE, E2_TECH),
  "C27": (E2D_NOTE, "bounded-exhaustive enumeration of encodings and of single-fault corruptions of them against round-trip and refusal oracles"),
  "C28": (E2F_NOTE, "bounded-exhaustive enumeration of scripts, output read back and compared with an independently computed rendering"),
@@ -55,6 +61,11 @@ CHECKS.update({
  "C18": ("model_checking", "7 C18 and 11.8", "Every schedule of every ERR script (17 failure kinds x 8 contexts x {uncaught, caught inside, caught outside} x failing peer; xors whose left branch succeeds or still waits; xors over an uncatchable error): the handler is requested only after a catchable failure, never for successful/waiting left branches, never for uncatchable errors; at quiescence of a caught variant the handler has run; the (error_code, message) the handler receives through :error: equal the (ret_code, error_message) the uncaught variant's runs end with."),
  "C27": ("exploration", "7 C27 and 11.8", "Every distinct honest data blob of the harvested explorations round-trips through three encode/decode routes; envelopes around broken inner data (all truncation lengths and byte flips of the first blobs) keep their versions readable and are answered with the data-deserialization error and the previous data; generated call-request and call-result maps round-trip through both decoders; payloads re-tagged with 18 other codec prefixes (MessagePack and JSON bodies) are refused by both decoders and by the interpreter."),
  "C28": ("exploration", "7 C28 and 11.8", "Every generated script the parser accepts is beautified with indent steps 1, 2, 4, 7 and the output, read back as (depth, line) pairs, is compared with an expected rendering computed from the script text by an independent reader: every instruction in order, depth = nesting depth with sequences flattened, compound heads and operands as written."),
+})
+CHECKS.update({
+ "C01": ("fault_enumeration", "7 C01 and 11.9", "Adversarial but correctly signed data (the catalogue of C14 at every position of every situation, re-signed by the attacker and not), every truncation and single-byte substitution of honest envelopes fed to execute_air and to to_human_readable_data, name-clash / scope-edge scripts run to quiescence and seq/par/xor/new nested up to 1000 (thorough 100000) deep, each also parsed and beautified: no panic, no dead process, no allocation beyond a 4 GiB address space. Five crash sites were repaired (fixed entries in known_findings.json); one known finding remains (unsound string after deserializing a validated archive, root cause in rkyv 0.7.43)."),
+ "C14": ("fault_enumeration", "7 C14 and 11.9", "Every operator of the tamper catalogue (numbers, arrays, state kinds, re-pointed / consistently forged / relocated / swapped results, removed store entries, signatures, particle ids) at every position of every harvested situation, singly and as ordered pairs, re-signed by the attacker and not: the victim either rejects the data or its new data verifies and holds, for every honest peer, only results the honest outcome holds at the same call site."),
+ "C23": ("exploration", "7 C23 and 11.8", "Totality over all token strings up to length 4 (thorough 5) over a 26-token alphabet (Err or an Ok tree without error nodes, never a panic); Ok implies well-scoped (an independent ScopeCheck on the text) for every generated script and every single scope mutation of it. Two validator defects were repaired (fixed entries), two remain as known findings because the repository's own tests pin them (next after its fold; fail with an undefined scalar)."),
 })
 NOT_BUILT = {
  "C01": "no check claimed: the fault-enumeration sweep (isolated worker, JSON-tree tamper pipeline) designed in DESIGN.md 7 C01 was not built in the time available; the six crash sites reproduced by hand in the design phase are described there",
